@@ -20,6 +20,7 @@ type Query {
   echo(i: Int, x: Int = 7, e: E, inp: In, l: [Int], f: Float, id: ID, b: Boolean): String
   req(r: Int!, rl: [Int!]!): String
   dfl(ll: [In!] = [{p: 1}], s: String = "dflt", nd: Int! = 5, one: One): String
+  sum(values: [Int!] = [1, 2], o: In = {q: [1]}): String
   plain: Int
   sub: Query
 }
